@@ -1,8 +1,23 @@
 import os, sys
 sys.path.insert(0, os.path.join(os.path.dirname(__file__), "..", "_shared"))
 import storage_family
+import http_family as hf
 
 
 def run(ctx):
     storage_family.run(ctx, "C24", ["mut"], ["Inv_StateOK"], ["C24_Atomic"],
                        ["mut"], ["RTW", "CraftEnabler"])
+    # the same request through the HTTP client classes, with responses lost after the server handled the request:
+    # the caller is told nothing (failure) or the answer of the one application, never the answer of a second one
+    n, ev = (25, 30) if ctx.quick else (200, 45)
+    traces = ctx.impl("harness/http_driver.py", ["--mode", "twin", "--focus", "rtw", "--n", n, "--events", ev])
+    lost = 0
+    for tr in traces:
+        tr.pop("tree", None)
+        for e in tr["events"]:
+            if e["ev"] in ("Req", "ReqLost") and e["r"]["ep"] == "rtw":
+                lost += e["ev"] == "ReqLost"
+                ctx.count("http:" + repr((e["ev"], e["r"]["si"], e["r"]["a"]["tw"], e["status"], e["body"])) if e["status"] == 200 else None)
+    ctx.notes.append("HTTP leg: %d histories of read-test-write requests through StorageClientMutables, %d of them with the response "
+                     "lost after the server handled the request" % (len(traces), lost))
+    hf.validate(ctx, "C24", traces, "read-test-write through the HTTP client")
